@@ -26,6 +26,8 @@ pub struct Rewriter {
     pub index_map: std::collections::BTreeMap<String, String>,
     /// R-binop: "<ident><op>" (left operand's variable, possibly behind `&`) -> function
     pub binop_map: std::collections::BTreeMap<String, String>,
+    /// R-const: constant name -> function
+    pub const_map: std::collections::BTreeMap<String, String>,
 }
 
 fn txt<T: ToTokens>(t: &T) -> String {
@@ -120,7 +122,7 @@ fn bind_elem(p: &Pat, place: &Expr, idx: &Ident, mode: &str, used_refpat: &mut b
 
 impl Rewriter {
     pub fn new(enabled: HashSet<String>) -> Self {
-        Rewriter { enabled, log: vec![], dropped: vec![], errors: vec![], counters: Default::default(), index_map: Default::default(), binop_map: Default::default() }
+        Rewriter { enabled, log: vec![], dropped: vec![], errors: vec![], counters: Default::default(), index_map: Default::default(), binop_map: Default::default(), const_map: Default::default() }
     }
     fn on(&self, r: &str) -> bool {
         self.enabled.contains(r)
@@ -759,6 +761,17 @@ impl VisitMut for Rewriter {
     }
 
     fn visit_type_mut(&mut self, t: &mut Type) {
+        if self.on("R-dynerr") {
+            // `Box<dyn Error>` -> `BoxDynError` (an opaque error value; Verus has no trait objects)
+            let flat = txt(t).replace(' ', "");
+            if flat == "Box<dynError>" || flat == "Box<dynstd::error::Error>" {
+                let line = t.span().start().line;
+                let new: Type = parse_quote!(BoxDynError);
+                self.record("R-dynerr", line, t, &new);
+                *t = new;
+                return;
+            }
+        }
         visit_mut::visit_type_mut(self, t);
         if self.on("R-f64") {
             if let Type::Path(tp) = t {
@@ -834,6 +847,19 @@ impl VisitMut for Rewriter {
                 self.record("R-sortby", line, e, &n);
                 *e = n;
                 return;
+            }
+        }
+        if self.on("R-const") {
+            if let Expr::Path(pth) = e {
+                if let Some(id) = pth.path.get_ident() {
+                    if let Some(f) = self.const_map.get(&id.to_string()) {
+                        let f = Ident::new(f, proc_macro2::Span::call_site());
+                        let n: Expr = parse_quote!( #f() );
+                        self.record("R-const", line, e, &n);
+                        *e = n;
+                        return;
+                    }
+                }
             }
         }
         if self.on("R-binop") {
